@@ -1,6 +1,9 @@
 //! ONE simulated run: `simrun <scenario> <seed> [options]`, prints one `RESULT {json}` line.
 
 use mayverif::engine::{Cfg, ReplayData, Strategy};
+
+#[global_allocator]
+static ALLOC: mayverif::alloc::SimAlloc = mayverif::alloc::SimAlloc;
 use std::collections::HashMap;
 
 fn parse_pairs(s: &str, key: &str) -> Vec<Vec<u64>> {
@@ -67,6 +70,7 @@ fn main() {
     let mut trace = false;
     let mut max_steps: Option<u64> = None;
     let mut no_faults = false;
+    let mut alloc: Option<u8> = None;
     let mut i = 3;
     while i < args.len() {
         match args[i].as_str() {
@@ -90,6 +94,10 @@ fn main() {
             }
             "--trace" => trace = true,
             "--no-faults" => no_faults = true,
+            "--alloc" => {
+                i += 1;
+                alloc = Some(args[i].parse().unwrap());
+            }
             "--max-steps" => {
                 i += 1;
                 max_steps = Some(args[i].parse().unwrap());
@@ -115,6 +123,9 @@ fn main() {
             c.stall_budget = 0;
             c.stall_ppm = 0;
             c.spurious_park_pm = 0;
+        }
+        if let Some(a) = alloc {
+            c.alloc_mode = a;
         }
         if let Some(m) = max_steps {
             c.max_steps = m;
